@@ -96,6 +96,9 @@ def keys_seq(container, sorted_: bool, wrap_elem=None):
             prev = tm.Select(arr, tm.Sub(i, tm.mk_int(1)), ks)
             c2.pc.append(tm.Implies(tm.And(inr, tm.Gt(i, tm.mk_int(0))), tm.StrLt(prev, kt)))
         k = kwrap(kt)
+        inv = getattr(container, "elem_invariant", None)
+        if inv is not None:
+            c2.pc.append(tm.Implies(inr, B(inv(k))))
         return wrap_elem(k) if wrap_elem else k
 
     q = SymSeq(elem, cnt, name=("sorted" if sorted_ else "iter") + "(" + container.name + ")")
@@ -123,6 +126,8 @@ def as_symseq(it, sorted_=False):
             raise Unsupported("sorted() of symbolic map values")
         m = it.m
         return keys_seq(m, False, wrap_elem=lambda k: m.value_at(k))
+    if hasattr(it, "__symseq__"):
+        return it.__symseq__()
     return None
 
 
@@ -188,6 +193,11 @@ class _LoopBase:
         if isinstance(value, (SymMap, SymSet)) and sp is None:
             havoc_container(value, f"L{self.k}.{name}")
             return value
+        if isinstance(value, list) and not value and sp is not None and isinstance(sp, ty.SeqOf):
+            # an empty list literal that the loop fills: from here on an array-backed sequence
+            q = sp.fresh(c.fresh_name(f"L{self.k}.{name}"))
+            sym.mark_born(q)
+            return q
         if hasattr(value, "__havoc__") and sp is None:
             value.__havoc__(f"L{self.k}.{name}")
             c.data.setdefault("havocked", set()).add(id(value))
@@ -465,6 +475,11 @@ class RT:
                 if any(is_symbolic(k) for k, _ in items):
                     raise Unsupported("dict comprehension producing symbolic keys")
                 return dict(items)
+        if kind in ("list", "gen") and cond is None:
+            # a mapped sequence of the same length
+            mq = SymSeq(lambda i: f(q.elem(i)), q.length, name=f"map({q.name})")
+            mq.mapped = True
+            return mq
         hook = cur().data.get("comp_hook")
         if hook is not None:
             r = hook(kind, f, q, cond)
@@ -478,6 +493,41 @@ class RT:
 
     def wloop(self, k, env, names):
         return WhileLoop(self, k, env, names)
+
+    # generators (run eagerly; the yielded values are collected and recorded as events)
+    def gen_begin(self):
+        c = cur()
+        st = c.data.setdefault("gen_stack", [])
+        g = []
+        st.append(g)
+        return g
+
+    def gen_leave(self, g):
+        st = cur().data.get("gen_stack", [])
+        if st and st[-1] is g:
+            st.pop()
+
+    def gen_end(self, g):
+        return g
+
+    def yield_(self, v):
+        c = cur()
+        st = c.data.get("gen_stack")
+        if not st:
+            raise Unsupported("yield outside a generator frame")
+        st[-1].append(v)
+        if len(st) == 1 and c.data.get("inline_depth", 0) == 0:
+            c.event("yield", value=v)
+        return None
+
+    def yield_from(self, it):
+        it = sym.resolve(it)
+        q = as_symseq(it)
+        if q is not None:
+            raise Unsupported("yield from a symbolic iterable")
+        for v in it:
+            self.yield_(v)
+        return None
 
     # async
     def await_(self, x):
@@ -621,6 +671,10 @@ def v_max(*args, **kw):
 
 
 def v_any(it):
+    if isinstance(it, SymSeq):
+        # over-approximation: the truth value of any()/all() over a symbolic sequence is unconstrained
+        c = cur()
+        return SymBool(c.fresh(c.fresh_name("any"), BOOL))
     it = builtins.list(it)
     if any(is_symbolic(x) for x in it):
         return wrap_bool(tm.Or(*[B(x) for x in it]))
@@ -628,6 +682,9 @@ def v_any(it):
 
 
 def v_all(it):
+    if isinstance(it, SymSeq):
+        c = cur()
+        return SymBool(c.fresh(c.fresh_name("all"), BOOL))
     it = builtins.list(it)
     if any(is_symbolic(x) for x in it):
         return wrap_bool(tm.And(*[B(x) for x in it]))
